@@ -437,7 +437,9 @@ int main(int argc, char** argv) {
             ctx.count("steps");
             if (m.last_entry >= 0) {
                 ctx.count(fmt("entries_line%d", m.last_entry));
-                ctx.seen("nt", fmt("entry:line%d:%s", m.last_entry, f.ins == REP ? "rep" : "ins"));
+                static const char* ins_names[] = {"nop", "inc_a0", "inc_a1", "eint", "dint", "mod3", "st0", "st2", "reti", "retic", "rep", "br", "cntx_s", "cntx_r"};
+                ctx.seen("nt", fmt("entry:line%d:after-%s:depth%d%s", m.last_entry, ins_names[f.ins], depth > 2 ? 2 : depth,
+                                   was_masked_pending ? ":was-held" : ""));
                 ++depth;
             }
             if (f.ins == RETI || f.ins == RETIC)
